@@ -130,6 +130,23 @@ func c14Alphabet(r *gen.Rand, v *spec.Version) []string {
 	full := gen.Background(r, v, 1)
 	add(v.Canonical(v.ZeroAssign()))
 	add(v.Canonical(full))
+	// the LONGEST spelling of the version: every metric defined with its longest value
+	{
+		lg := v.ZeroAssign()
+		for m, me := range v.Metrics {
+			best := 0
+			for vi, val := range me.Values {
+				if (me.Mandatory || vi > 0) && len(val) >= len(me.Values[best]) {
+					best = vi
+				}
+				if !me.Mandatory && best == 0 && vi > 0 {
+					best = vi
+				}
+			}
+			lg[m] = uint8(best)
+		}
+		add(v.Canonical(lg))
+	}
 	for i := 0; i < 10; i++ {
 		a := gen.SparseAssign(r, v, i%5, 4)
 		add(v.Canonical(a))
@@ -838,6 +855,39 @@ func C14Child(mode, tier string, seed int64) {
 			}
 			c14Stress(st, inputs, shared, cfg[0], cfg[1], ops, fmt.Sprintf("%s-rep%d", mode, rep))
 		}
+		// "few keys, many threads": the same workload over only 2-4 hot inputs (and the shared objects parsed
+		// from them), so that state keyed on "the last input" / "a repeated input" is contended
+		{
+			hr := gen.New(seed, "C14", "hot", mode, fmt.Sprint(rep))
+			nh := 2 + hr.Intn(3)
+			var hot []c14Input
+			hotShared := make([][]probe.Obj, spec.NVersions)
+			ver := hr.Intn(spec.NVersions)
+			for len(hot) < nh {
+				in := inputs[hr.Intn(len(inputs))]
+				if in.ver != ver && hr.Intn(4) != 0 { // mostly one version, sometimes mixed
+					continue
+				}
+				hot = append(hot, in)
+				if o, err, _ := probe.APIs[in.ver].SafeParse(in.s); err == nil && o != nil {
+					hotShared[in.ver] = append(hotShared[in.ver], o)
+				}
+			}
+			any := false
+			for _, l := range hotShared {
+				any = any || len(l) > 0
+			}
+			if any {
+				ops := 24000 / scale / 16 * 4
+				if !quick {
+					ops *= 2
+				}
+				if ops < 20 {
+					ops = 20
+				}
+				c14Stress(st, hot, hotShared, 16, 16, ops, fmt.Sprintf("%s-hot%d", mode, rep))
+			}
+		}
 	}
 	res.Events = st.events.Load()
 	res.Keys = len(st.keysBy)
@@ -1091,7 +1141,7 @@ func CheckC14(c *Ctx) {
 		c.Extra["yield_points_inserted"] = s
 	}
 	c.SetReport(Report{
-		Rule:        "four builds of the CURRENT tree (plain; -race; -race after the AST yield-point pass that inserts seeded Gosched/sleep calls at loop heads and after call statements of go-cvss; -asan in thorough). In each: (1) baselines of ~40 inputs per version computed after forced double GC in forward and reverse order (must agree with each other, with the grammar/canonical-form oracles and -- plain build -- with the same call made as the first call of a fresh process); (2) sequential histories hostile to pooled scratch buffers under GOMAXPROCS(1)+GC off: ALL ordered pairs per version, all triples for v2 (1/7 for others), random sequences of 2-50 calls across versions -- every result must equal its baseline; (3) goroutines {4,16,64} x GOMAXPROCS {2,16} hammering the small shared input set (parse, everything observable of shared read-only objects, Set on local copies, parse-mutate-parse, Rating) with results compared to baselines; (0) cold concurrent starts: short-lived processes in which NO go-cvss call has happened yet release 8-24 goroutines together, round by round, on the same parse + score + Vector call (550 first-use rounds each), judged against the spec oracles; (4) every Vector() string kept next to an immediate clone and re-compared later, forced GC every 10k events. Race reports are counted from the GORACE log (never from the exit code) and de-duplicated by first-frame pair. evaluations = events; distinct = distinct (previous call, current call) context pairs summed over builds",
+		Rule:        "four builds of the CURRENT tree (plain; -race; -race after the AST yield-point pass that inserts seeded Gosched/sleep calls at loop heads and after call statements of go-cvss; -asan in thorough). In each: (1) baselines of ~40 inputs per version computed after forced double GC in forward and reverse order (must agree with each other, with the grammar/canonical-form oracles and -- plain build -- with the same call made as the first call of a fresh process); (2) sequential histories hostile to pooled scratch buffers under GOMAXPROCS(1)+GC off: ALL ordered pairs per version, all triples for v2 (1/7 for others), random sequences of 2-50 calls across versions -- every result must equal its baseline; (3) goroutines {4,16,64} x GOMAXPROCS {2,16} hammering the small shared input set, plus a hot-keys phase per repetition over only 2-4 inputs (parse, everything observable of shared read-only objects, Set on local copies, parse-mutate-parse, Rating) with results compared to baselines; (0) cold concurrent starts: short-lived processes in which NO go-cvss call has happened yet release 8-24 goroutines together, round by round, on the same parse + score + Vector call (550 first-use rounds each), judged against the spec oracles; (4) every Vector() string kept next to an immediate clone and re-compared later, forced GC every 10k events. Race reports are counted from the GORACE log (never from the exit code) and de-duplicated by first-frame pair. evaluations = events; distinct = distinct (previous call, current call) context pairs summed over builds",
 		DistinctN:   distinct,
 		Assumptions: []string{"the race detector sees only executed pairs of accesses; interleavings are explored, not enumerated", "in the plain build every baseline is also recomputed as the first call of a freshly started process; the sanitizer builds rely on the double-GC baseline"},
 	})
